@@ -158,6 +158,33 @@ def run(ck, F):
     ck.check(R3, 'pairwise distinct', len(set(seen.values())) == len(seen) == len(SYMBOLS) + len(LINKAGES),
              f'constants returned: {seen}', loc=F.rec[LEX]['loc'])
 
+    # each constant is one object: nothing else of its class has static storage (a table of copies is a table of look-alikes)
+    R3b = ck.rule('C13.constants-unique', 'each symbolic constant and standard linkage is the only statically allocated object of its kind '
+                  'with its spelling: no other namespace-scope or static variable (or array) of the class of a constant is built as a copy '
+                  'of a constant or from the spelling of one -- a route that answered from such an object would hand out a look-alike', floor=3)
+    cst_q = set(seen.values())
+    norm = lambda t: (t or '').replace('const ', '').replace('(anonymous namespace)', '(anon)').strip()
+    cst_cls = {}
+    for q in cst_q:
+        g = S.global_by_q(q)
+        if g is not None:
+            cst_cls.setdefault(norm(g['t']).split('[')[0].strip(), []).append(q)
+    for cls, qs in sorted(cst_cls.items()):
+        words_ = {w for w, _k in SYMBOLS.values()} | set(LINKAGES.values())
+
+        def lookalike(g):
+            # built as a copy of a constant, or from the spelling of one
+            for n in walk(g.get('init')):
+                if n.get('k') == 'ref' and n.get('kind') == 'global' and (n.get('q') or '').replace('(anonymous namespace)', '(anon)') in cst_q:
+                    return True
+                if n.get('k') == 'lit' and n.get('lt') == 'str' and bytes(n.get('bytes', [])).decode('utf-8', 'replace') in words_:
+                    return True
+            return False
+        others = [g['q'] for g in F.globals if g['q'] not in cst_q and norm(g['t']).split('[')[0].rstrip('&* ').strip() == cls
+                  and not norm(g['t']).rstrip().endswith(('&', '*')) and g.get('unit') != 'probe.cxx' and lookalike(g)]
+        ck.check(R3b, contracts.short(cls), not others, f'besides {[contracts.short(q) for q in qs]}, object(s) of class {contracts.short(cls)} with static storage: '
+                 f'{others}', loc=(S.global_by_q(qs[0]) or {}).get('loc'))
+
     # ---------------------------------------------------------------- process-wide
     R4 = ck.rule('C13.process-wide', 'no constant accessor reads the Lexicon object: each returns the same namespace-scope '
                  'constexpr object in every Lexicon', floor=33)
